@@ -273,10 +273,31 @@ def gen_session(r, nops, style):
     return lines
 
 
-WITNESS = [  # the 4-node history of DESIGN.md §9 (R -> A,B; A -> C), corpus entry
-    "book new 100 200 50",
-    "book add 0x956edbaa61877b1d e2e4 0x99652bf428f8337d P 1804-0x956edbaa61877b1d C -",
-    "book add 0x956edbaa61877b1d d2d4 0x3e4e9f0a3a9a1a4d P 1739-0x956edbaa61877b1d C -",
+ROOT = "0x956edbaa61877b1d"
+A_, B_, C_ = "0x99652bf428f8337d", "0xb4e89a6e063a0033", "0x300e44187299952a"
+WITNESS = [  # corpus entry: the 4-node history of DESIGN.md §9 (R -> A (e2e4), B (d2d4); A -> C (e7e5))
+    f"book new 100 200 50 {ROOT}",
+    f"book add {ROOT} e2e4 {A_} P 1804-{ROOT} C -",
+    f"book add {ROOT} d2d4 {B_} P 1739-{ROOT} C -",
+    f"book add {A_} e7e5 {C_} P 2356-{A_} C -",
+    f"book set {ROOT} 1350 0 1000",
+    f"book set {B_} 2942 -50 1000",
+    f"book set {A_} 2942 -10 1000",
+    f"book set {C_} 1350 10 1000",
+    f"book set {C_} 1350 -30 1000",      # A.negaMax -10 -> 30, R.negaMax stays 50: A's path error must become 80
+    "book dump",
+    f"book upd {A_}",
+    "book reload",
+    "book dump",
+]
+
+MALFORMED = [  # every one of these must be answered `bad-op` by both sides and leave the book untouched
+    "book", "book frob", "book new 1 2", "book new -1 2 3 0x1", "book new 1 2 200000 0x1", "book set 0x1 0 0 0",
+    f"book set {ROOT} 70000 0 0", f"book set {ROOT} 0 40000 0", f"book set {ROOT} 0 -32769 0", f"book set {ROOT} 0 0 -1",
+    f"book set {ROOT} 0 0 4294967296", f"book set {ROOT} x 0 0", f"book set {ROOT} 0 0", f"book set {ROOT} 0 0 0 0",
+    f"book add {ROOT} e2e4 {ROOT} P - C -", f"book add 0x5 e2e4 0x6 P - C -", f"book add {ROOT} e2e4 0x6 Q - C -",
+    f"book add {ROOT} e2e4", "book pend 0x5", "book unpend", "book upd zz", "book dump 1", "book reload now",
+    "book import 2000 e2e4", "book import 4 e2e4 ; a b c", "book import x e2e4", "book nop nop", "book set 0x 0 0 0",
 ]
 
 
@@ -296,6 +317,7 @@ def check_impl(lines, out, sessions):
     for (s, e) in sessions:
         tr = Tracker()
         for i in range(s, min(e, len(out))):
+            if out[i] == "bad-op" and lines[i] in MALFORMED: continue
             bad = tr.apply(lines[i], out[i])
             if bad is None:
                 res.append((i, [f"implementation reply is not a state: {out[i][:120]}"])); break
@@ -304,26 +326,65 @@ def check_impl(lines, out, sessions):
     return res
 
 
-def run_block(ctx, name, lines, sessions, use_model=True):
-    if use_model:
-        out1, out2, mis = vlib.diff_lines(ctx, name, lines, "plain", sessions=sessions)
-    else:
-        bdir = vlib.cxx_build("plain", ("vharness",))
-        rc, out1, err = vlib.run_lines(os.path.join(bdir, "vharness"), lines)
-        out2, mis = [], None
+def impl_fails(bdir, cand):
+    """Does the implementation alone violate the predicate on this (self-contained) session?  -> (bool, index)"""
+    rc, out, err = vlib.run_lines(os.path.join(bdir, "vharness"), cand)
+    if rc != 0 or len(out) != len(cand): return False, None
+    if any(parse_reply(o) is None for o in out): return False, None     # candidate is not a valid history any more
+    bad = check_impl(cand, out, [(0, len(cand))])
+    return (True, bad[0][0]) if bad else (False, None)
+
+
+def shrink(bdir, sess, budget=250):
+    """Greedy delta debugging on a failing session (list of explicit `book` lines, first line `book new`)."""
+    ok, idx = impl_fails(bdir, sess)
+    if not ok: return sess
+    cur = sess[:idx + 1]
+    chunk = max(1, len(cur) // 4)
+    trials = 0
+    while chunk >= 1 and trials < budget:
+        i, progressed = 1, False
+        while i < len(cur) and trials < budget:
+            cand = cur[:i] + cur[i + chunk:]
+            trials += 1
+            ok, idx = impl_fails(bdir, cand)
+            if ok:
+                cur = cand[:idx + 1]; progressed = True
+            else:
+                i += chunk
+        if not progressed or chunk > 1: chunk //= 2
+    return cur
+
+
+def run_block(ctx, name, lines, sessions, do_shrink=True):
+    out1, out2, mis = vlib.diff_lines(ctx, name, lines, "plain", sessions=sessions)
     ctx.count(len(lines))
     for l in lines: ctx.distinct(l)
-    if len(out1) != len(lines): return
+    if len(out1) != len(lines): return None
     bad = check_impl(lines, out1, sessions)
+    bdir = os.path.join(vlib.BUILD, "plain")
     for i, msgs in bad[:3]:
+        sess = vlib.session_of(lines, sessions, i)
+        small = shrink(bdir, sess) if do_shrink else sess
         ctx.violation(f"{name}: after `{lines[i][:100]}`: " + "; ".join(msgs[:3]),
-                      {"kind": "property-predicate", "tie": name, "input": vlib.session_of(lines, sessions, i),
+                      {"kind": "property-predicate", "tie": name, "input": small, "unshrunk_length": len(sess),
                        "impl_output": out1[i][:2000], "problems": msgs})
-    if use_model and mis is not None and not bad:
+    for i, (l, o) in enumerate(zip(lines, out1)):
+        if l in MALFORMED and o != "bad-op":
+            ctx.violation(f"{name}: malformed operation `{l}` was not rejected: {o[:100]}", {"kind": "malformed", "input": vlib.session_of(lines, sessions, i)})
+    if mis is not None and not bad:
         ctx.violation(f"{name}: model and implementation disagree on `{lines[mis][:100]}`",
                       {"kind": "correspondence", "tie": name, "theorem_scope": "Props/C19.lean (model no longer corresponds to the code)",
                        "input": vlib.session_of(lines, sessions, mis), "impl": out1[mis][:3000], "model": out2[mis][:3000]}, no_input=True)
     return out1
+
+
+def plan_for(r, tier):
+    if tier == "quick":
+        return ([("mix", r.randrange(30, 200)) for _ in range(500)] + [("score", r.randrange(40, 300)) for _ in range(300)] +
+                [("grow", r.randrange(200, 500)) for _ in range(30)])
+    return ([("mix", r.randrange(30, 300)) for _ in range(6000)] + [("score", r.randrange(40, 400)) for _ in range(4000)] +
+            [("grow", r.randrange(300, 1200)) for _ in range(200)] + [("grow", r.randrange(3000, 6000)) for _ in range(6)])
 
 
 def run(ctx):
@@ -349,27 +410,26 @@ def run(ctx):
             ctx.violation("replay still disagrees", rp, no_input=True)
         return
     vlib.lean_obligations(ctx)
-    ctx.cov["rule"] = ("random operation histories on one Book per session: add a position under an existing node (move pools that make "
-                       "transpositions and unequal-length transpositions frequent), set search result (small/tied scores, mate scores, "
-                       "win/lose threshold, INVALID, IGNORE, S16 limits; best move empty / any legal / an existing child's move), pending marks, "
-                       "game-tree import, write+read, explicit updateScores; all node fields compared with the Lean model after every operation "
-                       "and the defining equations evaluated on the implementation's fields; distinct = distinct explicit operation lines")
+    ctx.cov["rule"] = ("random operation histories on one Book per session: add a position under an existing node (move pools and a "
+                       "preference that make transpositions, extra parents, existing children and unequal-length transpositions frequent), "
+                       "set search result (small/tied scores, mate scores, win/lose threshold, INVALID, IGNORE, S16 limits; best move empty / "
+                       "any legal / an existing child's move), pending marks, game-tree import, write+read, explicit updateScores; all changed "
+                       "node fields compared with the Lean model after every operation and the defining equations evaluated on the "
+                       "implementation's fields; corpus: the 4-node witness; a malformed stream; distinct = distinct explicit operation lines")
     ctx.assumptions += ["book graph is acyclic (bookHash includes the half-move clock; cycles need >= 100 reversible plies)",
-                        "the parent/child links of a new position are taken from the implementation's chess rules (the model is parametric in them)",
+                        "the parent/child links of a new position are taken from the implementation's chess rules (AddOk hypotheses of addPos_preserves_fixedpoint; "
+                        "the harness checks the declared links against what addPosToBook linked, the predicate checks parity/acyclicity/consistency on the dumps)",
                         "no int overflow in costs (checked on the dumped values)"]
-    # sessions
-    plan = []
-    if quick:
-        plan += [("mix", r.randrange(30, 200)) for _ in range(60)]
-        plan += [("score", r.randrange(40, 300)) for _ in range(40)]
-        plan += [("grow", r.randrange(200, 500)) for _ in range(6)]
-    else:
-        plan += [("mix", r.randrange(30, 300)) for _ in range(1500)]
-        plan += [("score", r.randrange(40, 400)) for _ in range(1000)]
-        plan += [("grow", r.randrange(300, 1200)) for _ in range(60)]
-        plan += [("grow", r.randrange(3000, 6000)) for _ in range(4)]
+    # corpus + malformed stream
+    mal = list(WITNESS[:4])
+    for m in MALFORMED:
+        mal += [m, f"book set {r.choice([ROOT, A_, B_, C_])} {r.choice([0, 1350, 2356])} {rnd_score(r)} 7"]
+    mal.append("book dump")
+    lines = WITNESS + mal
+    run_block(ctx, "corpus-and-malformed", lines, [(0, len(WITNESS)), (len(WITNESS), len(lines))])
+    # random histories
     gen_lines, gs = [], []
-    for style, nops in plan:
+    for style, nops in plan_for(r, ctx.tier):
         s = len(gen_lines)
         gen_lines += gen_session(r, nops, style)
         gs.append((s, len(gen_lines)))
@@ -379,13 +439,22 @@ def run(ctx):
     if bad_el:
         ctx.violation(f"elaboration failed on `{gen_lines[bad_el[0]]}`: {lines[bad_el[0]]}", {"kind": "elaborate", "input": gen_lines[:bad_el[0] + 1][-50:]}, no_input=True)
         return
-    nadd = sum(1 for l in lines if l.startswith("book add")) + sum(l.count(" ; ") for l in lines if l.startswith("book import"))
-    ntrans = sum(1 for l in lines if l.startswith("book add") and ("," in l.split(" P ")[1].split(" C ")[0] or not l.endswith(" C -")))
-    ctx.tie("book-histories", sessions=len(gs), positions_added=nadd, adds_with_extra_parent_or_existing_child=ntrans)
-    ctx.sample({"session_start": lines[:4]})
-    run_block(ctx, "book-histories", lines, gs, use_model=USE_MODEL)
+    adds = [l for l in lines if l.startswith("book add")]
+    nimp = sum(l.count(" ; ") for l in lines if l.startswith("book import"))
+    multi = sum(1 for l in adds if "," in l.split(" P ")[1].split(" C ")[0])
+    withc = sum(1 for l in adds if not l.endswith(" C -"))
+    ctx.tie("book-histories", sessions=len(gs), positions_added=len(adds) + nimp, adds_with_several_parents=multi, adds_with_existing_children=withc)
+    ctx.sample({"session_start": [l[:120] for l in lines[:4]]})
+    out1 = run_block(ctx, "book-histories", lines, gs)
+    if out1:
+        sizes = [int(o.split()[1][2:]) for o in out1 if o.startswith("dump")]
+        ctx.tie("book-histories", largest_book=max(sizes) if sizes else 0)
     if not quick:
+        # memory-safety run of the implementation alone under ASan+UBSan on a slice of the histories
+        k = gs[min(len(gs) - 1, 400)][1]
+        bdir = vlib.cxx_build("asan", ("vharness",))
+        rc, out, err = vlib.run_lines(os.path.join(bdir, "vharness"), lines[:k])
+        ctx.tie("asan", kind="implementation alone under ASan+UBSan", lines=k, rc=rc)
+        if rc != 0 or out != out1[:k]:
+            ctx.violation(f"ASan/UBSan run of the implementation failed or differs (rc={rc})", {"kind": "impl-crash", "variant": "asan", "stderr": err, "input": vlib.session_of(lines, gs, min(len(out), k - 1))})
         vlib.leanchecker(ctx, ["TexelVerif.Props.C19"])
-
-
-USE_MODEL = os.environ.get("C19_NO_MODEL") is None
